@@ -44,6 +44,8 @@ var kindMuts = map[string][]string{
 	"refresh-partial": refreshMuts, "form": formMuts, "expire": nil,
 }
 
+var revisingKinds = []string{"roots", "append", "free", "fund", "replenish-accounts", "replenish-pools", "renew", "refresh-full", "refresh-partial"}
+
 type weighted struct {
 	kind string
 	w    int
@@ -94,6 +96,10 @@ func makePlan(seed uint64, nsteps int) plan {
 		p.Steps = append(p.Steps, planStep{kind, mut})
 		if p.Flavor == "short" && i >= 3 && r.Chance(1, 6) {
 			p.Steps = append(p.Steps, planStep{"expire", "none"})
+			// two well-formed revising RPCs right after the proof height is reached
+			for j := 0; j < 2; j++ {
+				p.Steps = append(p.Steps, planStep{revisingKinds[r.Intn(len(revisingKinds))], "none"})
+			}
 		}
 	}
 	return p
@@ -181,6 +187,9 @@ func (sc *scen) step(st planStep, flavor string) {
 		o = sc.doRenewal(st.Kind, st.Mut)
 	default:
 		panic("unknown step kind " + st.Kind)
+	}
+	if o.ct != nil && st.Kind != "latest" && st.Kind != "form" && height >= o.ct.rev.ProofHeight {
+		o.mustReject = true // the proof window of the named contract is open
 	}
 	les := w.quiesce()
 	verdict := classify(o.err, les)
@@ -367,6 +376,7 @@ func (sc *scen) judgeCall(o *outcome, c call, where string) {
 			return
 		}
 		r := *c.Renewal
+		sc.judgeRevisable(old, c, where)
 		if !old.rev.RenterPublicKey.VerifyHash(h, c.Rev.RenterSignature) {
 			sc.failf("c08-renter-signature-invalid", "%s: renewed contract without a valid renter signature", where)
 		}
@@ -399,6 +409,7 @@ func (sc *scen) judgeCall(o *outcome, c call, where string) {
 		return
 	}
 	prev, rev := ct.rev, c.Rev
+	sc.judgeRevisable(ct, c, where)
 	if rev.RevisionNumber <= prev.RevisionNumber {
 		sc.failf("c08-revnum-not-increasing", "%s: %s with revision number %d after %d", where, c.Kind, rev.RevisionNumber, prev.RevisionNumber)
 	}
@@ -448,7 +459,25 @@ func (sc *scen) judgeCall(o *outcome, c call, where string) {
 		sc.failf("c08-storage-fields-wrong", "%s: revision %d: the root list handed to the Contractor differs from the ground truth", where, rev.RevisionNumber)
 	}
 	if c.Err == nil {
-		sc.checkConsensus(ct, rev, where)
+		sc.checkConsensus(ct, rev, where, true)
+	}
+}
+
+// judgeRevisable: ground truth about the chain decides whether the host may still
+// sign anything for this contract.  Once a renewal of it has been accepted (the
+// harness confirms it in the next block) or the tip has reached its proof height,
+// consensus accepts no further revision, so a revision (or renewal) the server
+// hands to the Contractor can never be the host's "latest revision acceptable to
+// consensus".
+func (sc *scen) judgeRevisable(ct *ctr, c call, where string) {
+	tip := sc.w.cm.Tip().Height
+	switch {
+	case ct.renewed:
+		sc.failf("c08-revision-of-unrevisable-contract", "%s: the server signed and submitted %s (revision %d) for contract %d, which has been renewed: the on-chain element is resolved (Contractor said: %v)",
+			where, c.Kind, c.Rev.RevisionNumber, ct.abs, c.Err)
+	case tip >= ct.rev.ProofHeight:
+		sc.failf("c08-revision-of-unrevisable-contract", "%s: the server signed and submitted %s (revision %d) for contract %d at tip height %d, its proof height is %d: consensus accepts no revision in a block of height %d (Contractor said: %v)",
+			where, c.Kind, c.Rev.RevisionNumber, ct.abs, tip, ct.rev.ProofHeight, tip+1, c.Err)
 	}
 }
 
@@ -721,6 +750,23 @@ func runC08(c *hx.Ctx) {
 			p.Flavor = "rich"
 			p.Steps = []planStep{{"form", "none"}, {"append", "none"}, {"latest", "renewal-id"}, {"renew", "none"}, {"append", "none"},
 				{"fund", "none"}, {"latest", "none"}, {"refresh-partial", "none"}, {"roots", "none"}, {"refresh-full", "none"}, {"free", "none"}}
+		}
+		switch i {
+		case 1: // every revising RPC on a contract id that has been renewed / refreshed
+			p.Flavor = "rich"
+			p.Steps = []planStep{{"form", "none"}, {"append", "none"}, {"append", "none"}, {"fund", "none"}, {"renew", "none"}}
+			for _, k := range revisingKinds {
+				p.Steps = append(p.Steps, planStep{k, "renewed-cid"})
+			}
+			p.Steps = append(p.Steps, planStep{"append", "none"}, planStep{"refresh-partial", "none"}, planStep{"roots", "renewed-cid"},
+				planStep{"fund", "renewed-cid"}, planStep{"free", "renewed-cid"}, planStep{"latest", "none"})
+		case 2: // every revising RPC, well-formed, after the proof height has been reached
+			p.Flavor = "short"
+			p.Steps = []planStep{{"form", "none"}, {"append", "none"}, {"append", "none"}, {"fund", "none"}, {"expire", "none"}}
+			for _, k := range revisingKinds {
+				p.Steps = append(p.Steps, planStep{k, "none"})
+			}
+			p.Steps = append(p.Steps, planStep{"latest", "none"})
 		}
 		res := runPlan(w, p)
 		sc := res.sc
